@@ -993,7 +993,7 @@ int main(int argc, char **argv) {
   if (!th)
     planA = {{"1x1x1", 5, 3}, {"2x1x1", 4, 3}, {"3x1x1", 4, 3}, {"3x2x1", 3, 3}};
   else
-    planA = {{"1x1x1", 6, 3, 5, 4}, {"2x1x1", 5, 3, 4, 4}, {"3x1x1", 4, 4}, {"3x2x1", 4, 4}, {"1x1x2", 4, 3}, {"1x2x3", 3, 3}};
+    planA = {{"1x1x1", 6, 3, 5, 4}, {"2x1x1", 4, 4}, {"3x1x1", 4, 4}, {"3x2x1", 4, 3, 3, 4}, {"1x1x2", 4, 3}, {"1x2x3", 3, 3}};
   parse_plan("planA", planA);
   for (auto &p : planA) {
     if (R.out_of_time()) {
